@@ -239,7 +239,7 @@ def replay_reporter_history(ctx, hist):
 def _random_emitter_trace(rng, rid0, length):
     rig = EmitterRig(use_global=bool(rng.randint(0, 2)))
     recs = [dict(id=rid0, op='begin')]
-    fns, evs, snd = ['f1', 'f2', 'm1'], ['a', 'b'], ['s1', 's2']
+    fns, evs, snd = ['f1', 'f2', 'm1'], ['no_on', 'b'], ['s1', 's2']
     for k in range(length):
         rid = rid0 + 1 + k
         u = rng.rand()
